@@ -143,7 +143,16 @@ class Info:
 def type_decl_cb(t):
     if t["kind"] == "prim":
         return "typedef int %s;" % t["name"]
-    return "struct %s { %s };" % (t["name"], " ".join("int %s;" % f for f in t["fields"]))
+    parts, seen = [], set()
+    for f in t["fields"]:
+        if "[" in f:                    # the flat fields g[0], g[1], .. are one array member  int[n] g;
+            base = f[:f.index("[")]
+            if base not in seen:
+                seen.add(base)
+                parts.append("int[%d] %s;" % (sum(1 for x in t["fields"] if x.startswith(base + "[")), base))
+        else:
+            parts.append("int %s;" % f)
+    return "struct %s { %s };" % (t["name"], " ".join(parts))
 
 
 def recv_cb(r):
@@ -257,7 +266,10 @@ def stmt_cb(info, sc, tname, s, k=0):
 def impl_cb(info, d):
     out = ["impl %s for %s {" % (d["iface"], d["type"])]
     for n, z in d["statics"]:
-        out.append("  static int %s = %d;" % (n, z))
+        if z == 0 and n in d.get("noinit", ()):
+            out.append("  static int %s;" % n)       # no initialiser: starts at 0
+        else:
+            out.append("  static int %s = %d;" % (n, z))
     for m in d["methods"]:
         sc = Scope(info, m_locals(m))
         parts = []
@@ -470,7 +482,10 @@ def gen_world(rng, small=False):
             types.append({"name": "P%d" % j, "kind": "prim"})
             nprim += 1
         else:
-            types.append({"name": "T%d" % j, "kind": "struct", "fields": FIELDS[:rng.randint(1, 3)]})
+            fields = FIELDS[:rng.randint(1, 3)]
+            if rng.random() < 0.3:       # an array member  int[n] g;  (model: the flat fields g[0] .. g[n-1])
+                fields = fields[:2] + ["g[%d]" % i for i in range(rng.randint(1, 3))]
+            types.append({"name": "T%d" % j, "kind": "struct", "fields": fields})
     impls = []
     for t in types:
         used = set()
@@ -483,13 +498,16 @@ def gen_world(rng, small=False):
             if rng.random() < 0.2:
                 continue                        # leave the pair without an impl
             used |= set(ms)
-            statics = [(s, rng.randint(0, 50)) for s in STATICS if rng.random() < 0.6]
+            statics = [(s, rng.randint(0, 50) if rng.random() < 0.75 else 0) for s in STATICS if rng.random() < 0.6]
             meths = []
             for m in ms:
                 use = bool(statics) and rng.random() < 0.65
                 meths.append(gen_method(rng, m, iname, t, statics, use, (iname, m) in voids))
             rng.shuffle(meths)
             impls.append({"iface": iname, "type": t["name"], "statics": statics, "methods": meths})
+            noinit = [s for s, z in statics if z == 0 and rng.random() < 0.7]
+            if noinit:
+                impls[-1]["noinit"] = noinit
     helpers = gen_helpers(rng, ifaces, types, impls)
     add_call_structure(rng, ifaces, types, impls, helpers, small)
     rng.shuffle(impls)
@@ -508,6 +526,10 @@ def gen_helpers(rng, ifaces, types, impls):
             helpers.append({"name": "g" + t["name"], "param": "q" + t["name"], "iface": None, "ptype": t["name"],
                             "calls": [(rng.choice(ms), rng.randint(0, 5)) for _ in range(rng.randint(1, 3))]})
     return helpers
+
+
+def has_array_member(t):
+    return any("[" in f for f in t.get("fields", []))
 
 
 def stmts_flat(body):
@@ -621,7 +643,7 @@ def add_call_structure(rng, ifaces, types, impls, helpers, small=False):
                 forms += ["self"] * 5
             if not (same and m_void(mm)):
                 forms += ["var", "var", "iface", "iface", "pif"]
-                if tt["kind"] == "struct":
+                if tt["kind"] == "struct" and not has_array_member(tt):   # avoided: C12-array-member-stale-through-pointer
                     forms += ["pvar"]
                     if id(m) not in recursive:      # avoided: C12-recursive-local-array-aliased
                         forms += ["elem"]
@@ -746,7 +768,7 @@ def gen_program(rng, nops, small=False, malformed=None):
             init = rng.randint(-40, 40) if t["kind"] == "prim" else [rng.randint(-20, 20) for _ in t["fields"]]
             vars_.append({"name": nm, "type": t["name"], "kind": "conc", "init": init})
             sim.conc[nm] = t["name"]
-        if t["kind"] == "struct" and rng.random() < 0.5:
+        if t["kind"] == "struct" and not has_array_member(t) and rng.random() < 0.5:
             nm = "a%s" % t["name"]
             ln = rng.randint(1, 3)
             vars_.append({"name": nm, "type": t["name"], "kind": "arr",
@@ -777,7 +799,9 @@ def gen_program(rng, nops, small=False, malformed=None):
             sim.iv[x] = [i, sim.dyn(src)]
         elif r < 0.25:
             # pointer to an interface variable or to a struct variable
-            cands = [(x, sim.iv[x][0]) for x in sim.iv] + [(x, t) for x, t in sim.conc.items() if sim.types[t]["kind"] == "struct"]
+            # avoided: C12-array-member-stale-through-pointer (no pointer to a struct variable whose type has an array member)
+            cands = [(x, sim.iv[x][0]) for x in sim.iv] + [(x, t) for x, t in sim.conc.items()
+                                                            if sim.types[t]["kind"] == "struct" and not has_array_member(sim.types[t])]
             if not cands:
                 continue
             x, pty = rng.choice(cands)
